@@ -40,6 +40,10 @@ def run(ctx: Context) -> None:
     _infra.reviewed_overrides(ctx, 'R06.10')
     from .common import adopt_foundations as _adopt
     _adopt(ctx, 'R06.9', ['order', 'topology'], floor=60)
+    ctx.rule('R06.11', "the coordinates a CF grid is built from are found by CF's own markers: units in the CF spellings, standard_name, or axis - any one, and nothing else", floor=4)
+    with ctx.section('R06.11'):
+        from . import infra as _infra611
+        _infra611.cf_coordinate_markers(ctx, 'R06.11')
     ctx.assume("GEOS is_valid detects self-intersection; numpy nanmin/nanmax/nanmean/pad semantics; shapely.polygons closes rings")
     ctx.assume("NOT decided: equality of UGRID node-based bounds with the polygon union when unused nodes exist (data dependent)")
 
@@ -584,6 +588,10 @@ _U = 'src/emsarray/conventions/ugrid.py'
 _B = 'src/emsarray/conventions/_base.py'
 _S = 'src/emsarray/conventions/shoc.py'
 VARIANTS = [
+    V('C06', 'longitude-units-test-inverted', 'src/emsarray/conventions/grid.py', "                    variable.attrs.get('units') in CF_LONGITUDE_UNITS", "                    variable.attrs.get('units') not in CF_LONGITUDE_UNITS", 'R06.11'),
+    V('C06', 'latitude-needs-all-markers', 'src/emsarray/conventions/grid.py', "                    variable.attrs.get('units') in CF_LATITUDE_UNITS\n                    or variable.attrs.get('standard_name') == 'latitude'", "                    variable.attrs.get('units') in CF_LATITUDE_UNITS\n                    and variable.attrs.get('standard_name') == 'latitude'", 'R06.11'),
+    V('C06', 'latitude-axis-x', 'src/emsarray/conventions/grid.py', "                    or variable.attrs.get('axis') == 'Y'", "                    or variable.attrs.get('axis') == 'X'", 'R06.11'),
+    V('C06', 'cf-unit-spelling-lost', 'src/emsarray/conventions/grid.py', "    'degrees_north', 'degree_north', 'degree_N', 'degrees_N',", "    'degrees_north', 'degree_north', 'degrees_N',", 'R06.11'),
     V('C06', 'cf2d-centres-in-storage-order', _G, "        coordinate = coordinate.transpose(self.y_dimension, self.x_dimension)\n", "", 'R06.3'),
     V('C06', 'cf2d-centres-keep-integer-dtype', _G, "        coordinate_values = coordinate.values.astype(numpy.double)", "        coordinate_values = coordinate.values.copy()", 'R06.3'),
     V('C06', 'cf2d-missing-cell-keeps-polygon', _G, "        cells_with_nans = numpy.isnan(bounds).any(axis=2) | nan_coordinates", "        cells_with_nans = numpy.isnan(bounds).any(axis=2)", 'R06.3'),
